@@ -19,7 +19,7 @@ func (vc *VC) errConst(name string) string {
 			vc.W.globalIDs["err:"+name] = k
 		}
 		// sentinel errors: fixed distinct negative ids (non-nil, never equal to an allocated error)
-		vc.asserts = append(vc.asserts, Eq(c, numI(int64(-k))))
+		vc.addAssert(Eq(c, numI(int64(-k))))
 	}
 	return c
 }
@@ -327,7 +327,7 @@ func (vc *VC) mapLookup(st *State, m Val, mt *types.Map, key Val) (Val, string) 
 	dom, vals, sorts := vc.mapHeap(mt)
 	k := mapKeyTerm(key)
 	d := vc.heapGet(st, dom, "(Array Int (Array Int Bool))")
-	present := vc.name("has", "Bool", Sel(Sel(d, m.S), k))
+	present := vc.name("has", "Bool", And(Ne(m.S, "0"), Sel(Sel(d, m.S), k)))
 	cs := make([]string, len(vals))
 	z := zeroVal(mt.Elem()).comps()
 	for i, n := range vals {
@@ -384,6 +384,27 @@ func (vc *VC) instr(st *State, in ssa.Instruction) {
 		}
 		if av.K == KInt {
 			vc.nilCheck(st, av, "store through nil pointer")
+			if vc.snapTypes[typeKey(derefType(x.Addr.Type()))] {
+				panic(unsupported("write through a %s pointer in a function that keeps addresses of slice elements in variables", x.Addr.Type()))
+			}
+		}
+		if v.K == KAddr && v.A.Kind == AElem && len(v.A.Path) == 0 && !isStructT(v.A.T) {
+			// the address of a slice element kept in a variable: from here on the pointer denotes a cell of its own that
+			// holds the element's current value (pointer variables stay mergeable with nil and across loops). Exact as long
+			// as the element is not written while the pointer is in use: reported as an assumption; writes through such
+			// pointers are out of subset
+			id := vc.newObj(st)
+			content := vc.load(st, v.A)
+			saved := vc.modset
+			vc.modset = nil
+			vc.store(st, &Addr{Kind: ABox, Obj: id, Root: v.A.T, T: v.A.T}, content)
+			vc.modset = saved
+			if vc.snapTypes == nil {
+				vc.snapTypes = map[string]bool{}
+			}
+			vc.snapTypes[typeKey(v.A.T)] = true
+			vc.note("addresses of slice elements are kept in pointer variables (" + vc.Fn.Name() + "): such a pointer is modelled as a cell of its own holding the element's value at that moment, i.e. the element is assumed not to be written through the slice while the pointer is in use")
+			v = IntV(id, x.Val.Type())
 		}
 		if arr, isArr := isArrayT(derefType(x.Addr.Type())); isArr && av.K == KInt {
 			// array assignment: copy contents into the destination region
